@@ -40,3 +40,69 @@ def utf8(s):
 
 def TAG(t, v):
     return cborx.Tag(t, v)
+
+
+# ---- ghost file system (native: the real file system) -------------------------------------------------
+def FILE(path):
+    with open(path, "rb") as fh:
+        return fh.read()
+
+
+def TEXTFILE(path):
+    with open(path, "r") as fh:
+        return fh.read()
+
+
+def EXISTS(path):
+    import os
+    return os.path.isfile(path)
+
+
+# ---- hex maps (native: dict address -> byte, read with the independent reader) ------------------------
+def HEXMAP(content):
+    return hexread.parse(content)
+
+
+def HEX_FILE_OK(content):
+    try:
+        hexread.parse(content)
+        return True
+    except Exception:
+        return False
+
+
+def HEX_EMPTY():
+    return {}
+
+
+def HEX_PUT(m, addr, data):
+    r = dict(m)
+    for i, x in enumerate(data):
+        r[addr + i] = x
+    return r
+
+
+def HEX_MERGE(a, b):
+    r = dict(a)
+    r.update(b)
+    return r
+
+
+def HEX_OVERLAP(a, b):
+    return bool(set(a) & set(b))
+
+
+def HEX_ISEMPTY(a):
+    return not a
+
+
+def HEX_MIN(a):
+    return min(a)
+
+
+def HEX_MAX(a):
+    return max(a)
+
+
+def HEX_TOBIN(m, start, end, pad):
+    return bytes(m.get(i, pad) for i in range(start, end + 1))
